@@ -22,7 +22,9 @@ class Models:
         self.hooks_call = []
         self.hooks_instantiate = []
         self.key_universes = []
-        self.const_overrides = {}      # "relpath::NAME" -> symbolic value standing for a module-level constant
+        # "relpath::NAME" -> value standing for a module-level constant
+        self.const_overrides = {"quantarhei/__init__.py::COMPLEX": ModRef("numpy.complex128"),
+                                "quantarhei/__init__.py::REAL": ModRef("numpy.float64")}
         self.ufun_axioms_used = set()
         _install(self)
         self.hooks_instantiate.append(singleton_hook)
@@ -87,7 +89,7 @@ class Models:
         idx = tuple(idx) + (slice(None),) * (arr.rank - len(idx))
         if all(not isinstance(x, slice) for x in idx):
             idx = self._norm_index(ex, arr, idx, line)
-            return arr.get(idx)
+            return _resolve_ite(ex, arr.get(idx))
         # view
         fixed = {}
         axes = []
@@ -417,6 +419,42 @@ class Models:
             # python scalars / None have no such attribute (e.g. `val.shape` in the scalar branch of a try)
             raise RaiseSignal("AttributeError", line=line)
         raise Unsupported("attribute %s of %r @%s" % (name, type(obj).__name__, line))
+
+
+def _resolve_ite(ex, v, depth=0):
+    """cells of arrays written by slice assignments read  ite(x0 == t and .., new, old) ; when the path condition decides
+    the guard (e.g. row 1 of an array whose row t >= 2 was just written) the read is resolved here, so that the solver
+    does not have to rewrite under a summation binder"""
+    if isinstance(v, Cx):
+        return Cx(_resolve_ite(ex, v.re, depth), _resolve_ite(ex, v.im, depth))
+    if depth > 4 or not is_z3(v) or not z3.is_app(v) or v.decl().kind() != z3.Z3_OP_ITE:
+        return v
+    c = v.arg(0)
+    if not _has_int_eq(c):
+        return v
+    cache = ex.__dict__.setdefault("_ite_cache", {})
+    key = (c.get_id(), len(ex.pc))
+    if key not in cache:
+        t = ex.feasible(c)
+        f = ex.feasible(z3.Not(c))
+        cache[key] = (c, True if (t and not f) else False if (f and not t) else None)
+    verdict = cache[key][1]
+    if verdict is True:
+        return _resolve_ite(ex, v.arg(1), depth + 1)
+    if verdict is False:
+        return _resolve_ite(ex, v.arg(2), depth + 1)
+    return v
+
+
+def _has_int_eq(c, depth=0):
+    if depth > 3 or not z3.is_app(c):
+        return False
+    k = c.decl().kind()
+    if k == z3.Z3_OP_EQ and c.arg(0).sort() == z3.IntSort():
+        return z3.is_int_value(c.arg(0)) or z3.is_int_value(c.arg(1)) or True
+    if k in (z3.Z3_OP_AND, z3.Z3_OP_OR, z3.Z3_OP_NOT):
+        return any(_has_int_eq(x, depth + 1) for x in c.children())
+    return False
 
 
 def _clamp_slice(x, n):
